@@ -38,6 +38,8 @@ func c13Trees(M string) []string {
 		fmt.Sprintf("touch %[1]s/.hidden;mkdir %[1]s/.hd;touch %[1]s/.hd/.x;mkfifo %[1]s/fifo;mksock %[1]s/sock;symlink %[1]s/loopb %[1]s/loopa;symlink %[1]s/loopa %[1]s/loopb;symlink /etc/passwd %[1]s/tohost;exit 0", M),
 		fmt.Sprintf("mkdir %[1]s/locked;touch %[1]s/locked/in;mkdir %[1]s/locked/sub;touch %[1]s/locked/sub/deep;chmod %[1]s/locked/sub 0;chmod %[1]s/locked 0;touch %[1]s/ro;chmod %[1]s/ro 0;exit 0", M),
 		fmt.Sprintf("writefile %[1]s/secret topsecret;sys 86 s:%[1]s/secret s:%[1]s/hardlink;exit 0", M),
+		// more entries directly under the mount root than any one directory read returns
+		fmt.Sprintf("touchmany %[1]s 5000;mkdir %[1]s/sub;touchmany %[1]s/sub 3000;exit 0", M),
 	}
 }
 
@@ -54,8 +56,8 @@ func listDir(p string) []string {
 }
 
 func runC13(res *Result, d *Driver, tier string, seed uint64) {
-	res.Rule = "part A: container histories: hostile probe programs build trees in every writable mount (40-deep paths, 200 entries, hidden names, FIFOs, sockets, symlink loops, links to host paths, hard links, 000-mode directories and files), then Reset, then the host lists the mounts through /proc/<init>/root and a following tenant program lists them from inside: nothing may remain (default mount table and a custom table with an extra tmpfs and a read-only bind); " +
-		"part B: memfd.DupToMemfd with sizes 0,1,4095,4096,4097,1 MiB(+64 MiB thorough) of random bytes: content hash, offset 0, F_GET_SEALS, and every modifying operation attempted through the descriptor, through /proc/self/fd/N, and by a program exec'd from it. non-trivial = every case; distinct = (mount table, tree script) / (size, attack)."
+	res.Rule = "part A: container histories: hostile probe programs build trees in every writable mount (40-deep paths, 200 entries, 5000 entries directly under the mount root plus 3000 in a sub-directory, hidden names, FIFOs, sockets, symlink loops, links to host paths, hard links, 000-mode directories and files), then Reset, then the host lists the mounts through /proc/<init>/root and a following tenant program lists them from inside: nothing may remain (default mount table and a custom table with an extra tmpfs and a read-only bind); " +
+		"part B: memfd.DupToMemfd with sizes 0,1,4095,4096,4097,1 MiB(+64 MiB thorough) of random bytes and readers that return data together with io.EOF / one byte at a time / 7-byte chunks / interleaved (0,nil) reads: content hash, offset 0, F_GET_SEALS, and every modifying operation attempted through the descriptor, through /proc/self/fd/N, and by a program exec'd from it. non-trivial = every case; distinct = (mount table, tree script) / (size, attack)."
 	rng := NewRng(seed, "C13", 1)
 	tables := []struct {
 		name   string
@@ -191,6 +193,27 @@ func runC13(res *Result, d *Driver, tier string, seed uint64) {
 		}
 		f.Close()
 	}
+	// every reader behaviour the io.Reader contract permits: data together with io.EOF, short reads, (0, nil) reads
+	for _, sz := range []int{0, 1, 100, 32767, 32768, 32769, 100000} {
+		data := make([]byte, sz)
+		for i := range data {
+			data[i] = byte(rng.Next())
+		}
+		for _, kind := range []string{"data-with-eof", "one-byte", "chunk-7", "zero-nil-reads", "eof-with-last-chunk-4096"} {
+			f, err := memfd.DupToMemfd("verif", &oddReader{data: data, kind: kind})
+			res.Case(fmt.Sprintf("memfd reader %s %d", kind, sz), true, "memfd-reader-"+kind)
+			res.Traces++
+			if err != nil {
+				res.Mismatch(Mismatch{Kind: "oracle", What: "DupToMemfd fails on a legal reader (C13_sealed)", Input: fmt.Sprintf("reader %s, %d bytes", kind, sz), Impl: err.Error(), Oracle: "violates"})
+				continue
+			}
+			got, _ := io.ReadAll(f)
+			if !bytes.Equal(got, data) {
+				res.Mismatch(Mismatch{Kind: "oracle", What: "sealed in-memory executable contains exactly the supplied bytes (C13_sealed)", Input: fmt.Sprintf("reader %s, %d bytes", kind, sz), Impl: fmt.Sprintf("memfd holds %d bytes, equal prefix %v", len(got), bytes.HasPrefix(data, got)), Oracle: "violates"})
+			}
+			f.Close()
+		}
+	}
 	// a program exec'd from the sealed memfd tries to modify itself
 	{
 		pb, _ := os.ReadFile(probePath())
@@ -225,4 +248,45 @@ func runC13(res *Result, d *Driver, tier string, seed uint64) {
 	}
 	_ = unsafe.Sizeof(0)
 	_ = d
+}
+
+// oddReader delivers data in the ways the io.Reader contract allows
+type oddReader struct {
+	data []byte
+	kind string
+	off  int
+	tick int
+}
+
+func (r *oddReader) Read(p []byte) (int, error) {
+	r.tick++
+	max := len(p)
+	switch r.kind {
+	case "one-byte":
+		max = 1
+	case "chunk-7":
+		max = 7
+	case "zero-nil-reads":
+		if r.tick%2 == 0 && r.off < len(r.data) {
+			return 0, nil
+		}
+		max = 1000
+	case "eof-with-last-chunk-4096":
+		max = 4096
+	}
+	if max > len(p) {
+		max = len(p)
+	}
+	n := copy(p[:max], r.data[r.off:])
+	r.off += n
+	if r.off >= len(r.data) {
+		switch r.kind {
+		case "data-with-eof", "eof-with-last-chunk-4096":
+			return n, io.EOF // the last data together with io.EOF
+		}
+		if n == 0 {
+			return 0, io.EOF
+		}
+	}
+	return n, nil
 }
